@@ -827,8 +827,8 @@ def mode_of(line):
             for k, v in c[1]:
                 if k not in ("mprecision", "raw", "nat", "ord", "rom") or v == "other":
                     return None
-                if k == "mprecision" and (isinstance(v, bool) or not isinstance(v, int)):
-                    return None
+                if k == "mprecision" and (isinstance(v, bool) or not isinstance(v, int) or v < 0):
+                    return None   # a rejected precision stops the call: what the rest of it asked for is not applied
                 if k != "mprecision" and not isinstance(v, bool):
                     return None
                 d[k] = v
